@@ -304,8 +304,11 @@ def gen_pass(rnd, data_type, force=None):
     # entry blocks
     p.absent = rnd.choice([-999.25, -999.25, 0.0, -9999.0])
     ebs = [(1, 66, data_type), (2, 66, 0), (4, 66, p.up_down), (13, 66, 1 if p.implied else 0)]
+    # the spacing may be recorded with either sign (signed representation codes): the direction of the log is given by
+    # the up/down flag, the magnitude by |spacing| - so the implied X is the same whichever sign was written
+    p.spacing_recorded = -p.spacing if rnd.random() < 0.3 else p.spacing
     if p.implied or rnd.random() < 0.7:
-        ebs += [(8, p.spacing_rc, p.spacing), (9, 65, p.x_units)]
+        ebs += [(8, p.spacing_rc, p.spacing_recorded), (9, 65, p.x_units)]
     if p.implied:
         ebs += [(14, 65, p.x_units), (15, 66, p.x_rc)]
     elif rnd.random() < 0.3:
@@ -511,7 +514,7 @@ def check_case(c, rnd, known, stats):
             expe = (p.data_type, p.up_down, 1 if p.implied else 0, p.data_type, p.implied, p.frame_size, len(p.chans))
             if gote != expe:
                 fail('entry blocks', log_pass=pi, got=repr(gote), expected=repr(expe))
-            if p.implied and (e.frameSpacing != p.spacing or e.frameSpacingUnits != p.x_units or e.depthUnits != p.x_units
+            if p.implied and (e.frameSpacing != p.spacing_recorded or e.frameSpacingUnits != p.x_units or e.depthUnits != p.x_units
                               or e.depthRepCode != p.x_rc or lp.xAxisUnits != p.x_units):
                 fail('implied X declaration', log_pass=pi, got=repr((e.frameSpacing, e.frameSpacingUnits, e.depthUnits,
                                                                      e.depthRepCode, lp.xAxisUnits)))
